@@ -63,27 +63,27 @@ def build(W):
             W.log({'a': 'mw', 'token': ['token', TOKEN_OWNER.get(tok, 'ALIEN')]})
             return next(token=tok)
 
-    def ep_item(request, name, token):
+    def ep_item(request, name, token, t):
         W.log({'a': 'endpoint', 'params': ['params', NAME_OWNER.get(name, 'ALIEN')],
                'token': ['token', TOKEN_OWNER.get(token, 'ALIEN')], 'rid': getattr(request, 'request_id', -1)})
-        return {'name': name, 'token': token, 'path': request.path, 't': request.args.get('t')}
+        return {'name': name, 'token': token, 'path': request.path, 't': t}      # t: from the built-in GetParamMiddleware
 
     def render_item(context, request, token):
         return Response(json.dumps(dict(context, rtoken=token, rpath=request.path)), mimetype='application/json')
 
-    def ep_boom(request, name, token):
+    def ep_boom(request, name, token, t):
         W.log({'a': 'endpoint', 'params': ['params', NAME_OWNER.get(name, 'ALIEN')],
                'token': ['token', TOKEN_OWNER.get(token, 'ALIEN')], 'rid': getattr(request, 'request_id', -1)})
-        raise ValueError('boom-%s-%s-%s' % (name, token, request.args.get('t')))
+        raise ValueError('boom-%s-%s-%s' % (name, token, t))
 
     def ep_nb1(name):
         raise NotFound('soft %s' % name, is_breaking=False)
     from clastic import POST
 
-    def ep_dual_post(request, name, token):
+    def ep_dual_post(request, name, token, t):
         W.log({'a': 'endpoint', 'params': ['params', NAME_OWNER.get(name, 'ALIEN')],
                'token': ['token', TOKEN_OWNER.get(token, 'ALIEN')], 'rid': getattr(request, 'request_id', -1)})
-        return {'name': name, 'token': token, 'path': request.path, 't': request.args.get('t'), 'via': 'post-route'}
+        return {'name': name, 'token': token, 'path': request.path, 't': t, 'via': 'post-route'}
     routes = [GET('/item/<name>', ep_item, render_item),
               GET('/dual/<name>', ep_item, render_item),
               POST('/dual/<name>', ep_dual_post, render_item),
@@ -91,7 +91,8 @@ def build(W):
               ('/nb/<name>', ep_nb1),
               ('/nb/<name>', ep_item, render_item),
               ('/branch/', lambda: Response('branch'))]
-    return Application(routes, middlewares=[ProvMw()])
+    from clastic.middleware.url import GetParamMiddleware
+    return Application(routes, middlewares=[ProvMw(), GetParamMiddleware(['t'])])
 
 
 def do_request(app, rname):
@@ -198,7 +199,8 @@ def check(run):
     names = sorted(REQS)
     pairs = [(x, y) for x in names for y in names]
     if quick:
-        must = [('nfh', 'nfj'), ('nfj', 'nfh'), ('dna', 'dpost'), ('dpost', 'dna'), ('a', 'b'), ('boom1', 'a'), ('c', 'redir')]
+        must = [('nfh', 'nfj'), ('nfj', 'nfh'), ('dna', 'dpost'), ('dpost', 'dna'), ('a', 'b'), ('boom1', 'a'), ('c', 'redir'),
+                ('boom1', 'boom2'), ('boom2', 'boom1')]
         pairs = must + rng.sample([p_ for p_ in pairs if p_ not in must], 8)
     npre = 0
     for x, y in pairs:
